@@ -423,6 +423,10 @@ pub struct MakeReadyCase {
     pub clients: Vec<(u8, u8)>,
     /// 0 http1, 1 auto
     pub proto: u8,
+    /// the make-service is wrapped by `with_connection_info()` (and `with_tls_connection_info()` when 2):
+    /// the wrappers must hand on readiness - the value that was polled ready is the one that is called
+    #[serde(default)]
+    pub info: u8,
 }
 
 #[derive(Default)]
@@ -433,10 +437,16 @@ struct MakeState {
     waker: Option<std::task::Waker>,
 }
 
-#[derive(Clone)]
 struct CappedMake {
     st: Arc<std::sync::Mutex<MakeState>>,
     cap: usize,
+    /// readiness of this very value (a clone starts unready, as with `tower::limit` services)
+    polled_ready: bool,
+}
+impl Clone for CappedMake {
+    fn clone(&self) -> Self {
+        CappedMake { st: self.st.clone(), cap: self.cap, polled_ready: false }
+    }
 }
 
 struct Permit(Arc<std::sync::Mutex<MakeState>>);
@@ -478,6 +488,7 @@ impl<'a> tower::Service<&'a hyperdriver::server::conn::Stream> for CappedMake {
         let mut s = self.st.lock().unwrap();
         if s.live < self.cap {
             s.ready_granted = true;
+            self.polled_ready = true;
             std::task::Poll::Ready(Ok(()))
         } else {
             s.ready_granted = false;
@@ -491,6 +502,10 @@ impl<'a> tower::Service<&'a hyperdriver::server::conn::Stream> for CappedMake {
             let live = s.live;
             s.violations.push(format!("make-service called although its last poll_ready did not return Ready ({live} live connections, cap {})", self.cap));
         }
+        if !self.polled_ready {
+            s.violations.push("a make-service value was called that had never been polled ready itself (a clone of the value that was)".to_string());
+        }
+        self.polled_ready = false;
         s.ready_granted = false;
         s.live += 1;
         std::future::ready(Ok(PermittedSvc { _permit: Arc::new(Permit(self.st.clone())) }))
@@ -514,12 +529,13 @@ impl Engine for MakeReadyEngine {
         let res = std::panic::catch_unwind(std::panic::AssertUnwindSafe(|| {
             rt.block_on(async move {
                 let (client, incoming) = hyperdriver::stream::duplex::pair();
-                let make = CappedMake { st: st2, cap: (c2.cap as usize).clamp(1, 3) };
+                let make = CappedMake { st: st2, cap: (c2.cap as usize).clamp(1, 3), polled_ready: false };
                 let b = hyperdriver::Server::builder::<hyperdriver::Body>().with_incoming(incoming);
-                let server = if c2.proto % 2 == 0 {
-                    tokio::spawn(async move { b.with_http1().with_make_service(make).with_tokio().await.map_err(|e| e.to_string()) })
-                } else {
-                    tokio::spawn(async move { b.with_auto_http().with_make_service(make).with_tokio().await.map_err(|e| e.to_string()) })
+                let server = match (c2.proto % 2, c2.info % 2) {
+                    (0, 0) => tokio::spawn(async move { b.with_http1().with_make_service(make).with_tokio().await.map_err(|e| e.to_string()) }),
+                    (0, _) => tokio::spawn(async move { b.with_http1().with_make_service(make).with_connection_info().with_tokio().await.map_err(|e| e.to_string()) }),
+                    (_, 0) => tokio::spawn(async move { b.with_auto_http().with_make_service(make).with_tokio().await.map_err(|e| e.to_string()) }),
+                    _ => tokio::spawn(async move { b.with_auto_http().with_make_service(make).with_connection_info().with_tokio().await.map_err(|e| e.to_string()) }),
                 };
                 let mut tasks = vec![];
                 for (i, (start, stall)) in c2.clients.iter().cloned().enumerate() {
@@ -599,7 +615,7 @@ impl Engine for MakeReadyEngine {
 
 pub fn makeready_strategy() -> impl proptest::strategy::Strategy<Value = MakeReadyCase> {
     use proptest::prelude::*;
-    (1u8..3, proptest::collection::vec((prop_oneof![3 => Just(0u8), 1 => 0u8..30], prop_oneof![2 => Just(0u8), 2 => 1u8..60, 1 => Just(255u8)]), 1..7), 0u8..2).prop_map(|(cap, clients, proto)| MakeReadyCase { cap, clients, proto })
+    (1u8..3, proptest::collection::vec((prop_oneof![3 => Just(0u8), 1 => 0u8..30], prop_oneof![2 => Just(0u8), 2 => 1u8..60, 1 => Just(255u8)]), 1..7), 0u8..2, 0u8..2).prop_map(|(cap, clients, proto, info)| MakeReadyCase { cap, clients, proto, info })
 }
 
 // ------------------------------------------------------------------------------------------------
